@@ -84,6 +84,12 @@ class ListWrapper(typing.MutableSequence[T]):
             assert isinstance(v, typing.Iterable)
             indices = range(*i.indices(len(self)))
             values = list(v)
+            if i.step not in (None, 1) and len(values) != len(indices):
+                # Fail before any element has been touched.
+                raise ValueError(
+                    "attempt to assign sequence of size %d to extended slice "
+                    "of size %d" % (len(values), len(indices))
+                )
         elif -len(self._data) <= i.__index__() < len(self._data):
             indices = range(i.__index__(), i.__index__() + 1)
             values = [typing.cast(T, v)]
@@ -91,12 +97,16 @@ class ListWrapper(typing.MutableSequence[T]):
             raise IndexError("list assignment index out of range")
         for index in indices:
             self._remove(self._data[index])
-        for value in values:
-            self._add(value)
+        # Store the new values before running the add hooks: a hook may
+        # remove a value from this very list (a value that is already owned
+        # by the list is moved, not duplicated), which must not invalidate
+        # the positions being assigned.
         if isinstance(i, slice):
             self._data[i] = values
         else:
             self._data[i] = values[0]
+        for value in values:
+            self._add(value)
 
     @typing.overload
     def __delitem__(self, i: int) -> None:
@@ -131,6 +141,12 @@ class ListWrapper(typing.MutableSequence[T]):
 
     def remove(self, v: T) -> None:
         del self[self._data.index(v)]
+
+    def reverse(self) -> None:
+        # Reversing changes no element's ownership, so no hooks run. (The
+        # MutableSequence mixin swaps items pairwise through __setitem__,
+        # which transiently lists one element twice.)
+        self._data.reverse()
 
     # extend is not in every version of Python 3, so list wrapper adds it here
     # itself.
